@@ -547,6 +547,14 @@ pub mod verif_export {
     pub use crate::confchange::restore;
     pub use crate::quorum::{AckIndexer, AckedIndexer, Index, VoteResult};
     pub use crate::tracker::{Configuration as TrackerConfiguration, ProgressMap};
+
+    thread_local! {
+        /// Randomized election timeout to install at the next timeout reset on this
+        /// thread (a value outside the node's legal range means: use the real RNG).
+        pub static NEXT_ELECTION_TIMEOUT: std::cell::Cell<usize> = const { std::cell::Cell::new(0) };
+        /// Number of timeout resets performed on this thread.
+        pub static TIMEOUT_RESETS: std::cell::Cell<u64> = const { std::cell::Cell::new(0) };
+    }
 }
 
 pub mod prelude {
